@@ -94,6 +94,7 @@ static incstate_t *inctop = 0;
 /* prevent unbridled recursion */
 #define MAX_INCLUDE_DEPTH 32
 static int incnum;
+static int macro_depth;		/* #include MACRO indirection, bounded like nested includes */
 
 /* If more than this is needed, the code needs help :-) */
 #define MAX_FUNCTION_DEPTH 10
@@ -424,7 +425,6 @@ static void handle_include (const char *inc_name, int optional) {
   static char buf[1024];
   incstate_t *is;
   int delim, fd;
-  static int macro_depth = 0;	/* #include MACRO indirection, bounded like nested includes */
 
   /* need a writable copy */
   fname[sizeof(fname)-1] = 0;
@@ -2597,6 +2597,7 @@ void start_new_file (int fd, const char* pre_text) {
   pragmas = DEFAULT_PRAGMAS;
   nexpands = 0;
   incnum = 0;
+  macro_depth = 0;
   function_flag = 0;
   current_line = 1;
   current_line_base = 0;
